@@ -120,6 +120,19 @@ def TypeRow.dedupe (t : TypeRow) : TypeRow :=
   let keep := t.consts.filter fun c => !t.drops c
   { t with consts := keep.map fun c => { c with dep := false } }
 
+/-- **Reading rule R7, the complete list of what it drops today**: (type, constant, value) of the rows of the Types sheet that
+are deprecated aliases of another row of the same type with the same value — `weather_report.forecast = 1` ("Deprecated use
+hourly_forecast instead"). ONE definition: `C17_dedupe_exact` states that the rule (`TypeRow.drops`, evaluated on the
+spreadsheet alone) drops exactly these rows, and the `--spec` oracle of the family `profilerows` removes exactly these rows
+(`TypeRow.dropListed`) — so a second row dropped by the rule breaks the theorem, and a row missing from the compiled packages
+that is not in this list is a failing row of the family, whatever the rule says. -/
+def r7Dropped : List (Nat × Nat × Nat) := [(0x1776561746865725f7265706f7274, 0x1666f726563617374, 1)]
+
+/-- the type without exactly the listed (type, constant, value) rows (and the `dep` mark forgotten) -/
+def TypeRow.dropListed (lst : List (Nat × Nat × Nat)) (t : TypeRow) : TypeRow :=
+  let keep := t.consts.filter fun c => !lst.any fun d => d.1 == t.name && d.2.1 == c.name && d.2.2 == c.value
+  { t with consts := keep.map fun c => { c with dep := false } }
+
 /-! ### the spell-correction of the generator (known finding F14 / KF-C17-1) -/
 
 /-- rewrite a name by a finite table of (spreadsheet spelling, generated spelling) pairs -/
